@@ -44,7 +44,8 @@ CHECKS["C15"] = {
             "AsyncReader (scripted AsyncRead, hand-polled futures dropped at Pending); seeded random walks of the real reader are validated event by "
             "event against the same actions with all invariants on.",
     "design_ref": "DESIGN.md section 6, C15",
-    "note": "Trusted: TLC, futures-io semantics as modelled by the scripted source, the no-op-waker executor. Liveness is not checked; bounds: <= 4 "
+    "note": "Trusted: TLC, futures-io semantics as modelled by the scripted source, the no-op-waker executor. Liveness (every read terminates, every deliverable frame is "
+            "eventually handed out under a fair source and executor) is checked on the model (MC_C15L), whose actions are the ones replayed on the code; bounds: <= 4 "
             "frames, <= 3 consecutive Pending, <= 2 transient errors in MC; <= 200 frames in random walks.",
     "technique": "TLA+ state-machine spec (AsyncReader) + TLC exhaustive schedule exploration + schedule replay on the real code + trace validation of random walks",
     "engine": "tlc+vh",
